@@ -159,6 +159,58 @@ def corr_loop(ck: core.Check, drv) -> None:
     ck.cov["loop_correspondence"] = {"cases": len(cases), "mismatches": mism}
 
 
+def corr_looprun(ck: core.Check, drv) -> None:
+    """`loopRun` / `stackScan` (the Loop semantics the theorems quantify over) vs. onnxruntime: trip
+    counts 0-3, initial condition, per-iteration conditions, shape-preserving and doubling bodies."""
+    import spox.opset.ai.onnx.v17 as op
+
+    cases = []
+    for kind in ("id", "double"):
+        for M in range(4):
+            for c0 in (True, False):
+                for conds in ([True, True, True], [False, True, True], [True, False, True], [True, True, False]):
+                    for shape in ([2], [1, 3], [0]):
+                        cases.append({"body": kind, "M": M, "c0": c0, "conds": conds, "v0": [{"e": "f32", "s": shape}]})
+    model = drv.ask_many("C06", [dict(c, k="looprun") for c in cases])
+    mism = ran = 0
+    sessions: dict = {}
+    for c, mo in zip(cases, model):
+        key = (c["body"], tuple(c["conds"]), len(c["v0"][0]["s"]))
+        if key not in sessions:
+            args = P.make_args({"x": L.ty_from_json({"e": "f32", "s": [None] * len(c["v0"][0]["s"])}),
+                                "m": L.ty_from_json({"e": "i64", "s": []}), "c": L.ty_from_json({"e": "bool", "s": [1]})})
+            cc = op.const(np.array(c["conds"] + [True] * 4, dtype=np.bool_))
+            empty = op.const(np.array([], dtype=np.int64))
+
+            def body(i, cnd, v, kind=c["body"]):
+                nxt_c = op.gather(cc, i)  # i is declared int64[1], so this is bool[1] like the cond argument
+                if kind == "id":
+                    return [nxt_c, v, v]
+                return [nxt_c, op.concat([v, v], axis=0), op.reshape(i, empty)]
+
+            with warnings.catch_warnings():
+                warnings.simplefilter("ignore")
+                outs = op.loop(args["m"], args["c"], v_initial=[args["x"]], body=body)
+            m, _ = P.build_exposed(args, list(outs))
+            sessions[key] = P._session(m.SerializeToString())
+        feed = {"x": np.zeros(c["v0"][0]["s"], np.float32), "m": np.array(c["M"], np.int64), "c": np.array([c["c0"]], np.bool_)}
+        try:
+            res = [L.val_of(r) for r in sessions[key].run(None, feed)]
+        except Exception:  # noqa: BLE001
+            continue
+        ran += 1
+        run = mo.get("run")
+        ok = run is not None and run["final"] == res[:1]
+        if ok and run["iterations"] >= 1:
+            ok = run["scans"] == res[1:]
+        ck.count(("looprun", json.dumps(c)))
+        if not ok:
+            mism += 1
+            if mism <= 3:
+                ck.broken("correspondence", "loopRun runtime-spec-vs-onnxruntime", f"case={json.dumps(c)} model={json.dumps(mo)} onnxruntime={json.dumps(res)}")
+    ck.cov["looprun_correspondence"] = {"cases": len(cases), "onnxruntime_accepted": ran, "mismatches": mism}
+
+
 def _compress_k(feeds, axis) -> int:
     x, c = feeds
     c = np.asarray(c).reshape(-1)
@@ -373,6 +425,7 @@ def run(ck: core.Check):
         ck.log("infer correspondence done")
         _facet(ck, "Loop correspondence", corr_loop, ck, drv)
         _facet(ck, "runtime-spec correspondence", corr_rt, ck, drv)
+        _facet(ck, "loopRun correspondence", corr_looprun, ck, drv)
         ck.log("runtime-spec correspondence done")
         _facet(ck, "conforms/strip correspondence", corr_conf, ck, drv)
 
